@@ -788,3 +788,165 @@ Proof.
   unfold covers_enduse. intros H c Hc. rewrite forallb_forall in H. specialize (H c Hc).
   destruct (enduse_of_code c) as [eu|]; [exists eu; reflexivity|discriminate].
 Qed.
+
+(* ------------------------------------------------------------------------------------------------ *)
+(* conversion-efficiency / reinjection-temperature correlations and the power-plant part of Calculate *)
+
+(* the interpolation weights sum to 1: blending two equal values returns that value; a blend is the lower value plus
+   the weight times the difference; with a weight in [0,1] it lies between the two *)
+Theorem blend_weights tf x y :
+  blend tf x x == x /\ blend tf x y == x + tf * (y - x) /\
+  (0 <= tf <= 1 -> Qmin x y <= blend tf x y <= Qmax x y).
+Proof.
+  unfold blend. split. ring. split. ring. intros [H0 H1].
+  destruct (Qlt_le_dec x y) as [H|H].
+  - rewrite Q.min_l, Q.max_r by lra. split; nra.
+  - rewrite Q.min_r, Q.max_l by lra. split; nra.
+Qed.
+
+Theorem tfraction_range amb : 5 <= amb -> amb < 25 -> 0 <= tfraction amb /\ tfraction amb < 1.
+Proof.
+  intros H5 H25. unfold tfraction, is_low. destruct (Qltb_spec amb 15) as [H|H]; split.
+  - apply Qle_shift_div_l; lra.
+  - apply Qlt_shift_div_r; lra.
+  - apply Qle_shift_div_l; lra.
+  - apply Qlt_shift_div_r; lra.
+Qed.
+
+(* the code's value is the value of the bracket the ambient temperature falls in ... *)
+Theorem corr_at_bracket p amb T :
+  etau_at p amb T = etau_bracket p (is_low amb) amb T /\ reinj_at p amb T = reinj_bracket p (is_low amb) amb T.
+Proof. unfold etau_at, reinj_at, etau_bracket, reinj_bracket, tfraction. destruct (is_low amb); split; reflexivity. Qed.
+
+(* ... and at the bracket boundary (15 degC) the two brackets of every plant type agree, for every entering temperature:
+   the correlations are continuous in the ambient temperature *)
+Theorem corr_continuous p T :
+  etau_bracket p true 15 T == etau_bracket p false 15 T /\ reinj_bracket p true 15 T == reinj_bracket p false 15 T.
+Proof.
+  unfold etau_bracket, reinj_bracket, blend, poly2. destruct p; cbn [coeffs eta_ll eta_ul rj_ll rj_ul]; split; field.
+Qed.
+
+Lemma fold_left_Qmin_le : forall l x, fold_left Qmin l x <= x /\ forall y, In y l -> fold_left Qmin l x <= y.
+Proof.
+  induction l as [|a l IH]; intros x; cbn [fold_left]. split. lra. intros y [].
+  destruct (IH (Qmin x a)) as [H1 H2]. split.
+  - eapply Qle_trans. exact H1. apply Q.le_min_l.
+  - intros y [<-|Hy]. eapply Qle_trans. exact H1. apply Q.le_min_r. apply H2. exact Hy.
+Qed.
+
+Theorem tinj_update_spec tinj reinj t' :
+  tinj_update tinj reinj = Some t' ->
+  t' <= tinj /\ (forall r, In r reinj -> t' <= r) /\ (t' == tinj \/ In t' reinj \/ exists r, In r reinj /\ t' == r).
+Proof.
+  unfold tinj_update, list_min. destruct reinj as [|x l]; [discriminate|].
+  destruct (fold_left_Qmin_le l x) as [H1 H2].
+  assert (Hall : forall r, In r (x :: l) -> fold_left Qmin l x <= r).
+  { intros r [<-|Hr]. exact H1. apply H2. exact Hr. }
+  assert (Hin : exists r, In r (x :: l) /\ fold_left Qmin l x == r).
+  { clear. revert x. induction l as [|a l IH]; intros x; cbn [fold_left].
+    - exists x. split. left; reflexivity. reflexivity.
+    - destruct (IH (Qmin x a)) as (r & [<-|Hr] & E).
+      + destruct (Qlt_le_dec x a).
+        * exists x. split. left; reflexivity. rewrite E. apply Q.min_l. lra.
+        * exists a. split. right; left; reflexivity. rewrite E. apply Q.min_r. lra.
+      + exists r. split. right; right; exact Hr. exact E. }
+  destruct (Qltb_spec (fold_left Qmin l x) tinj) as [H|H]; intros E; inversion E; subst; clear E.
+  - split. lra. split. exact Hall. right. right. exact Hin.
+  - split. lra. split. intros r Hr. specialize (Hall r Hr). lra. left. reflexivity.
+Qed.
+
+(* gross electricity of every branch *)
+Lemma ehp_el eu avail etau n m cp tprod tinj reinj tchp eff chpf o :
+  ehp eu avail etau n m cp tprod tinj reinj tchp eff chpf = Ok o ->
+  forall t, (t < length avail)%nat ->
+    nth t (o_el o) 0 == nth t avail 0 * nth t etau 0 * n * m * match eu with EU_PAR => 1 - chpf | _ => 1 end.
+Proof.
+  unfold ehp. destruct (same_len avail etau) eqn:EL; cbn [negb]; [|discriminate]. apply same_len_true in EL.
+  destruct (list_max _) as [mx|]; [|discriminate]. destruct (Qltb mx 0); [discriminate|].
+  destruct eu; try (destruct (same_len tprod reinj); cbn [negb]; [|discriminate]);
+    intros E t Ht; inversion E; subst; clear E; cbn [o_el]; rewrite map2_nth by lia; ring.
+Qed.
+
+Lemma tentering_length eu tchp tprod : length (tentering eu (length tprod) tchp tprod) = length tprod.
+Proof. destruct eu; cbn [tentering]; try reflexivity. apply repeat_length. Qed.
+
+Lemma nth_repeat_Q (x : Q) n t : (t < n)%nat -> nth t (repeat x n) 0 = x.
+Proof. revert t; induction n as [|n IH]; intros [|t] H; cbn; try lia. reflexivity. apply IH. lia. Qed.
+
+Lemma tentering_nth eu tchp tprod t : (t < length tprod)%nat ->
+  nth t (tentering eu (length tprod) tchp tprod) 0 = match eu with EU_BOT => tchp | _ => nth t tprod 0 end.
+Proof. intros H. destruct eu; cbn [tentering]; try reflexivity. apply nth_repeat_Q. exact H. Qed.
+
+(* the power-plant part of Calculate, every step of every series: gross electricity = availability x etau x wells x flow
+   (x (1 - chp_fraction) in the parallel cycle) with etau the modelled correlation at the plant entering temperature;
+   the extracted heat uses the UPDATED injection temperature, which is never above any reinjection temperature;
+   the balance of C02_conservation holds; and in the topping cycle the useful heat is
+   eff x n m cp (ReinjTemp - Tinj')/1e6 >= 0 with ReinjTemp the modelled correlation *)
+Theorem power_plant_spec p eu amb avail n m cp tprod tinj tchp eff chpf tinj' etau reinj o :
+  power_plant p eu amb avail n m cp tprod tinj tchp eff chpf = Ok (tinj', etau, reinj, o) ->
+  tinj' <= tinj /\ length (o_he o) = length tprod /\
+  forall t, (t < length tprod)%nat ->
+    let T := match eu with EU_BOT => tchp | _ => nth t tprod 0 end in
+    nth t etau 0 = etau_at p amb T /\ nth t reinj 0 = reinj_at p amb T /\ tinj' <= reinj_at p amb T /\
+    nth t (o_he o) 0 == n * m * cp * (nth t tprod 0 - tinj') / 1000000 /\
+    conserved eu eff o t /\
+    ((t < length avail)%nat ->
+     nth t (o_el o) 0 == nth t avail 0 * etau_at p amb T * n * m * match eu with EU_PAR => 1 - chpf | _ => 1 end) /\
+    (eu = EU_TOP ->
+     nth t (o_hp o) 0 == eff * (n * m * cp * (reinj_at p amb (nth t tprod 0) - tinj') / 1000000) /\
+     arr_at (o_hete o) t == n * m * cp * (nth t tprod 0 - reinj_at p amb (nth t tprod 0)) / 1000000).
+Proof.
+  unfold power_plant.
+  set (tpp := tentering eu (length tprod) tchp tprod).
+  destruct (tinj_update tinj (reinj_series p amb tpp)) as [t1|] eqn:Eu; [|discriminate].
+  destruct (ehp eu avail (etau_series p amb tpp) n m cp tprod t1 (reinj_series p amb tpp) tchp eff chpf) as [o1|c] eqn:Ee;
+    [|discriminate].
+  intros E; inversion E; subst; clear E.
+  destruct (tinj_update_spec _ _ _ Eu) as (Hle & Hall & _).
+  destruct (ehp_balance _ _ _ _ _ _ _ _ _ _ _ _ _ Ee) as [Hl Hb].
+  split. exact Hle. split. exact Hl. intros t Ht. cbn zeta.
+  assert (Htpp : nth t tpp 0 = match eu with EU_BOT => tchp | _ => nth t tprod 0 end) by (apply tentering_nth; exact Ht).
+  assert (Hlt : (t < length tpp)%nat) by (unfold tpp; rewrite tentering_length; exact Ht).
+  assert (He : nth t (etau_series p amb tpp) 0 = etau_at p amb (nth t tpp 0)) by (apply nth_map_Q; exact Hlt).
+  assert (Hr : nth t (reinj_series p amb tpp) 0 = reinj_at p amb (nth t tpp 0)) by (apply nth_map_Q; exact Hlt).
+  rewrite Htpp in He, Hr.
+  split. exact He. split. exact Hr.
+  split. { rewrite <- Hr. apply Hall. apply nth_In. unfold reinj_series. rewrite map_length. exact Hlt. }
+  destruct (Hb t Ht) as [Hhe Hc]. split. exact Hhe. split. exact Hc.
+  split.
+  - intros Ha. rewrite (ehp_el _ _ _ _ _ _ _ _ _ _ _ _ _ Ee t Ha). rewrite He. reflexivity.
+  - intros ->. pose proof (ehp_branches _ _ _ _ _ _ _ _ _ _ _ _ _ Ee t Ht) as Hbr. cbn beta iota in Hbr.
+    destruct Hbr as (_ & Hhp & Hte). rewrite Hr in Hhp, Hte. split. exact Hhp. exact Hte.
+Qed.
+
+(* hence, in the topping cycle with non-negative efficiency, flow and heat capacity the useful heat is never negative *)
+Corollary topping_heat_nonneg p amb avail n m cp tprod tinj tchp eff chpf tinj' etau reinj o t :
+  power_plant p EU_TOP amb avail n m cp tprod tinj tchp eff chpf = Ok (tinj', etau, reinj, o) ->
+  0 <= eff -> 0 <= n -> 0 <= m -> 0 <= cp -> (t < length tprod)%nat -> 0 <= nth t (o_hp o) 0.
+Proof.
+  intros E He Hn Hm Hc Ht. destruct (power_plant_spec _ _ _ _ _ _ _ _ _ _ _ _ _ _ _ _ E) as (_ & _ & H).
+  destruct (H t Ht) as (_ & _ & Hle & _ & _ & _ & Htop). destruct (Htop eq_refl) as [Hhp _]. cbn zeta in Hle.
+  rewrite Hhp.
+  assert (0 <= n * m * cp) by (apply Qmult_le_0_compat; [apply Qmult_le_0_compat|]; assumption).
+  assert (0 <= n * m * cp * (reinj_at p amb (nth t tprod 0) - tinj')) by (apply Qmult_le_0_compat; lra).
+  apply Qmult_le_0_compat. exact He. apply Qle_shift_div_l. reflexivity. lra.
+Qed.
+
+Theorem check_power_plant_sound tol p eu amb avail n m cp tprod tinj tchp eff chpf tpp el he hp :
+  check_power_plant tol p eu amb avail n m cp tprod tinj tchp eff chpf tpp el he hp = true ->
+  exists tinj' etau reinj o,
+    power_plant p eu amb avail n m cp tprod tinj tchp eff chpf = Ok (tinj', etau, reinj, o) /\
+    approx tol tinj' tinj /\
+    length el = length (o_el o) /\ length he = length (o_he o) /\ length hp = length (o_hp o) /\
+    (forall t, (t < length (o_el o))%nat -> approx tol (nth t (o_el o) 0) (nth t el 0)) /\
+    (forall t, (t < length (o_he o))%nat -> approx tol (nth t (o_he o) 0) (nth t he 0)) /\
+    (forall t, (t < length (o_hp o))%nat -> approx tol (nth t (o_hp o) 0) (nth t hp 0)).
+Proof.
+  unfold check_power_plant. intros H. apply andb_true_iff in H. destruct H as [_ H].
+  destruct (power_plant p eu amb avail n m cp tprod tinj tchp eff chpf) as [[[[t1 e1] r1] o1]|c]; [|discriminate].
+  apply andb_true_iff in H. destruct H as [H H4]. apply andb_true_iff in H. destruct H as [H H3].
+  apply andb_true_iff in H. destruct H as [H1 H2].
+  apply all_close_sound in H2, H3, H4. destruct H2 as [L2 N2]. destruct H3 as [L3 N3]. destruct H4 as [L4 N4].
+  exists t1, e1, r1, o1. split. reflexivity. split. apply close_iff. exact H1.
+  repeat split; auto.
+Qed.
